@@ -50,6 +50,18 @@ def encode(t):
                 f"{t.get('fuel', FUEL)} {_g(t['z'])} {_g(t['x'])} {_g(t['y'])} {_g(t['zgrad'])} {_g(t['xgrad'])} "
                 f"{_g(t['ygrad'])} {_f(t['zend'])} {_f(t['xend'])} {_f(t['yend'])} {_f(t['zsrc'])} "
                 f"{_f(t['xsrc'])} {_f(t['ysrc'])} {_f(t['stepsize'])}")
+    if op == "sweep2":
+        tt = np.asarray(t["tt"], dtype=np.float64)
+        d = t["dir"]
+        return (f"sweep2 {tt.shape[0]} {tt.shape[1]} {t['i']} {t['j']} {d[0]} {d[1]} {d[2]} {d[3]} {t['zsi']} {t['xsi']} "
+                f"{int(t['grad'])} {_f(t['dz'])} {_f(t['dx'])} {_f(t['zsa'])} {_f(t['xsa'])} {_f(t['vzero'])} "
+                f"{_g(tt)} {_g(t['slow'])}")
+    if op == "sweep3":
+        tt = np.asarray(t["tt"], dtype=np.float64)
+        d = t["dir"]
+        return (f"sweep3 {tt.shape[0]} {tt.shape[1]} {tt.shape[2]} {t['i']} {t['j']} {t['k']} "
+                + " ".join(str(x) for x in d) + f" {int(t['grad'])} {_f(t['dz'])} {_f(t['dx'])} {_f(t['dy'])} "
+                f"{_g(tt)} {_g(t['slow'])}")
     if op == "shrink":
         return (f"shrink {len(t['pcur'])} {_g(t['pcur'])} {_g(t['delta'])} {_g(t['lower'])} {_g(t['upper'])}")
     raise KeyError(op)
@@ -72,6 +84,11 @@ def decode(t, line):
         return d
     if op in ("interp2d", "interp3d", "vinterp2d", "vinterp3d", "shrink"):
         return {"status": "ok", "v": C.b2f(toks[1])}
+    if op in ("sweep2", "sweep3"):
+        sh = np.asarray(t["tt"]).shape
+        n = int(np.prod(sh))
+        return {"status": "ok", "tt": C.bits_arr(toks[1:1 + n], sh),
+                "sgn": np.array([int(x) for x in toks[1 + n:]], dtype=np.int64)}
     if op in ("ray2d", "ray3d"):
         n = int(toks[1])
         nd = 2 if op == "ray2d" else 3
@@ -124,7 +141,7 @@ def compare(impl, model, keys, tol=1e-9):
 
 KEYS = {"fteik2d": ["tt", "vzero", "grad"], "fteik3d": ["tt", "vzero", "grad"],
         "interp2d": ["v"], "interp3d": ["v"], "vinterp2d": ["v"], "vinterp3d": ["v"],
-        "ray2d": ["ray"], "ray3d": ["ray"], "shrink": ["v"]}
+        "ray2d": ["ray"], "ray3d": ["ray"], "shrink": ["v"], "sweep2": ["tt", "sgn"], "sweep3": ["tt", "sgn"]}
 
 
 def run(tasks, mode="interp", keys=None, tol=1e-9):
